@@ -323,6 +323,9 @@ def run(ctx, rep_):
     loop_counter_start_kind(F, rep_)
     names_have_element_types(F, rep_)
     void_is_not_an_element(F, rep_)
+    # a variable a function reads is captured: a dependency is compared with the supplies before its capture depth is raised (shared with C07)
+    from props import _netdeps
+    _netdeps.run(F, rep_, "C02.net-dependencies")
     # a name is one variable per function at run time: the declaration parsers ask for an existing binding function-wide (shared with C10)
     from props import C10 as _c10
     _c10.existence_is_asked_function_wide(F, rep_, rule="C02.scope-extent")
